@@ -93,7 +93,7 @@ func runCase(cs *Case, u *universe, checkAll bool, st *stats) (f *failure, m *mo
 	return nil, m
 }
 
-func report(c *vf.Ctx, cs *Case, f *failure, upto int) {
+func report(c *vf.Ctx, cs *Case, f *failure) {
 	atomic.AddInt64(&failures, 1)
 	cc := *cs
 	cc.Ops = append([]Op(nil), cs.Ops...)
@@ -218,7 +218,7 @@ func exhaustive(c *vf.Ctx, level byte, fullLen, maxLen, na, nk, nest int, total 
 		st.seqs++
 		local[len(ops)]++
 		if f != nil {
-			report(c, cs, f, len(ops))
+			report(c, cs, f)
 			return
 		}
 		if m.reverted > 0 {
@@ -433,7 +433,7 @@ func randomPhase(c *vf.Ctx, level byte, nseq int, total *stats) {
 				c.Eval(len(cs.Ops))
 				st.seqs++
 				if f != nil {
-					report(c, cs, f, len(cs.Ops))
+					report(c, cs, f)
 					continue
 				}
 				if m.reverted > 0 {
@@ -497,7 +497,7 @@ func main() {
 	runtime.GOMAXPROCS(workers)
 	// tiny live heap + very high allocation rate (trie batches, hashers): without help the collector
 	// runs continuously. An untouched no-scan ballast makes a cycle start every ~ballast bytes.
-	bal := 512
+	bal := 64
 	if v := os.Getenv("C12_BALLAST_MB"); v != "" {
 		fmt.Sscan(v, &bal)
 	}
@@ -528,7 +528,7 @@ func main() {
 		}
 		c.Eval(len(cs.Ops))
 		if f != nil {
-			report(c, &cs, f, len(cs.Ops))
+			report(c, &cs, f)
 		}
 		c.Finish("replay of one sequence, oracle after every op", 0)
 		return
@@ -548,16 +548,18 @@ func main() {
 	}
 	total := newStats()
 	// (all sequences up to, one per renaming class up to): B quick (6,6) thorough (6,7);
-	// S (larger alphabet: separate account / per-contract snapshot stacks) quick (5,5) thorough (6,6)
-	fB, mB, fS, mS := 6, c.Pick(6, 7), c.Pick(5, 6), c.Pick(5, 6)
-	if v := os.Getenv("C12_LENS"); v != "" {
+	// S (larger alphabet: separate account / per-contract snapshot stacks) quick (5,5) thorough (5,6)
+	fB, mB, fS, mS := 6, c.Pick(6, 7), 5, c.Pick(5, 6)
+	if v := os.Getenv("C12_LENS"); v != "" { // development only; recorded in the evidence
 		fmt.Sscan(v, &fB, &mB, &fS, &mS)
+		c.Set("dev_override_C12_LENS", v)
 	}
 	exhaustive(c, 'B', fB, mB, 2, 2, 6, total)
 	exhaustive(c, 'S', fS, mS, 2, 2, 6, total)
-	nr := c.Pick(800, 30000)
-	if v := os.Getenv("C12_NR"); v != "" {
+	nr := c.Pick(800, 20000)
+	if v := os.Getenv("C12_NR"); v != "" { // development only; recorded in the evidence
 		fmt.Sscan(v, &nr)
+		c.Set("dev_override_C12_NR", v)
 	}
 	randomPhase(c, 'B', nr, total)
 	randomPhase(c, 'S', nr, total)
@@ -585,9 +587,11 @@ func main() {
 	runtime.KeepAlive(ballast)
 	c.Finish("every read (GetState/GetAccountState/GetData/GetInitialData, live handles and freshly opened ones) equals a deep-copy snapshot-stack model after the op; "+
 		"state root after Update equals a fresh StateDB on a fresh store fed only the surviving writes; after Commit a StateDB reopened at the root equals the model "+
-		"and no uniquely tagged value of a reverted write is anywhere in the raw store",
+		"and no uniquely tagged value of a reverted write is anywhere in the raw store; "+
+		"a second StateDB+store replaying the same history with the reverted writes erased (no Snapshot/Rollback calls) has the same root after Update and a byte-identical store after Commit",
 		c.Pick(2000, 20000),
-		"Update and Commit invalidate outstanding snapshots (the node reverts only inside block execution, before Update); Commit is always Update+Commit",
+		"Update and Commit invalidate outstanding snapshots (the node reverts only inside block execution, before Update); Commit is always preceded by exactly one Update and after Update only Commit or abandoning the StateDB follows (Update;Update without Commit loses trie nodes in pkg/trie - outside the node's use, reported separately)",
+		"the content-based root oracle presumes pkg/trie roots are a function of the content (holds since /repo commit f02b841f)",
 		"snapshot ids taken after a snapshot are invalid once that snapshot has been reverted to; the reverted-to id stays usable",
 		"one storage object per contract at a time (staged, shared by later opens, or a single not-yet-staged handle); not-yet-staged handles are private scratch and are discarded by a block-level rollback, as the node does with the handles of a failed tx",
 		"block level additionally allows per-contract ContractState.Snapshot/Rollback nested properly inside block snapshots (VM recovery points)")
